@@ -79,6 +79,69 @@ def splice_fn(repo, rel, path, sections, opts, log, meta):
     attrs = src[f.start:f.sig_start]
     sig = src[f.sig_start:f.body_open]
     body = src[f.body_open:f.end]  # includes braces
+    span = [a for k, a, r in sections if k == "span"]
+    if span:
+        # statement span of the real fn pasted as the body of a function whose signature is given by the unit (`sig`), optionally
+        # inside a `wrap` template with the placeholder @SPAN@.  begin ::: end | @block_end
+        mm = re.match(r"^(.*?)\s*:::\s*(.*)$", span[0])
+        if not mm:
+            raise SpliceError("%s: bad span directive" % path)
+        hits = list(rs.anchor_regex(mm.group(1)).finditer(body))
+        if len(hits) != 1:
+            raise SpliceError("%s: span begin `%s` matches %d times (need exactly 1)" % (path, mm.group(1), len(hits)))
+        s0 = hits[0].start()
+        if mm.group(2).strip() == "@block_end":
+            toks = rs.lex(body)
+            depth, e0 = 0, None
+            for t in toks:
+                if t.s < s0:
+                    continue
+                if t.text in "{[(" and len(t.text) == 1:
+                    depth += 1
+                elif t.text in "}])" and len(t.text) == 1:
+                    if depth == 0:
+                        e0 = t.s
+                        break
+                    depth -= 1
+            if e0 is None:
+                raise SpliceError("%s: span: enclosing block end not found" % path)
+        elif mm.group(2).strip() == "@stmt_end":
+            # the statement that starts at `begin` and ends with its first brace block (for / while / if without else / loop)
+            toks = rs.lex(body)
+            k = next((i for i, t in enumerate(toks) if t.s >= s0 and t.text == "{"), None)
+            if k is None:
+                raise SpliceError("%s: span: no block after begin" % path)
+            c = rs.match_close(toks, k)
+            # if .. {} else if .. {} else {}: take the whole chain
+            while c + 1 < len(toks) and toks[c + 1].text == "else":
+                k = next((i for i in range(c + 2, len(toks)) if toks[i].text == "{"), None)
+                if k is None:
+                    break
+                c = rs.match_close(toks, k)
+            e0 = toks[c].e
+        else:
+            h2 = [h for h in rs.anchor_regex(mm.group(2)).finditer(body) if h.start() >= s0]
+            if len(h2) != 1:
+                raise SpliceError("%s: span end `%s` matches %d times after begin (need exactly 1)" % (path, mm.group(2), len(h2)))
+            e0 = h2[0].end()
+        span_text = body[s0:e0]
+        sigs = [t for k, a, t in sections if k == "sig"]
+        if len(sigs) != 1:
+            raise SpliceError("%s: span needs exactly one `sig` section" % path)
+        wraps = [t for k, a, t in sections if k == "wrap"]
+        wrap = wraps[0] if wraps else "@SPAN@"
+        if wrap.count("@SPAN@") != 1:
+            raise SpliceError("%s: wrap needs exactly one @SPAN@" % path)
+        log.append({"rule": "statement-span", "fn": path, "where": "lines %d-%d of %s" % (
+            src.count("\n", 0, f.body_open + s0) + 1, src.count("\n", 0, f.body_open + e0) + 1, rel),
+            "before": "statements inside fn " + f.name, "after": "body of `" + " ".join(sigs[0].split()) + "`, wrapped as `" +
+            " ".join(wrap.split()) + "`", "count": 1})
+        sig = sigs[0].rstrip() + "\n"
+        attrs = ""
+        opts = dict(opts)
+        opts.setdefault("_span_name", re.search(r"\bfn\s+(\w+)", sig).group(1))
+        opts["_span_lines"] = [src.count("\n", 0, f.body_open + s0) + 1, src.count("\n", 0, f.body_open + e0) + 1]
+        body = "{\n" + wrap.replace("@SPAN@", span_text) + "\n}"
     orig_tokens_src = sig + body
 
     sig_rw = [r for k, a, r in sections if k == "sigrewrite"]
@@ -89,11 +152,12 @@ def splice_fn(repo, rel, path, sections, opts, log, meta):
     sig_new = sig_plain
     retname = [a for k, a, r in sections if k == "ret"]
     if retname:
-        if f.ret_span is None:
+        if f.ret_span is None and not span:
             raise SpliceError("%s: `ret` given but fn has no return type" % path)
-        if sig_rw:
+        if sig_rw or span:
             # recompute the return type span on the rewritten signature
-            f2 = rs.find_fn("impl X { " + sig_plain + "{} }", "X::" + f.name)
+            nm = re.search(r"\bfn\s+(\w+)", sig_plain).group(1)
+            f2 = rs.find_fn("impl X { " + sig_plain + "{} }", "X::" + nm)
             base = len("impl X { ")
             a, b = f2.ret_span[0] - base, f2.ret_span[1] - base
         else:
@@ -175,8 +239,9 @@ def splice_fn(repo, rel, path, sections, opts, log, meta):
     if "drop_attrs" in opts and attrs.strip():
         log.append({"rule": "drop_attrs", "fn": path, "where": "attributes", "before": " ".join(attrs.split()), "after": "", "count": 1})
     res = (attr + "\n" if attr else "") + keep_attrs + sig_new.rstrip() + "\n" + (spec + "\n" if spec else "") + body_new
-    meta.append({"file": rel, "item": path, "repo_lines": [src.count("\n", 0, f.start) + 1, src.count("\n", 0, f.end) + 1],
-                 "name": opts.get("name", f.name)})
+    meta.append({"file": rel, "item": path + (" (statement span)" if span else ""),
+                 "repo_lines": opts.get("_span_lines") or [src.count("\n", 0, f.start) + 1, src.count("\n", 0, f.end) + 1],
+                 "name": opts.get("_span_name") or opts.get("name", f.name)})
     return res
 
 
@@ -346,7 +411,9 @@ def build(template_text, repo, units_dir=None):
                         sections.append((k2, None, (mm.group(1), mm.group(2), mm.group(3))))
                     elif k2 == "ret":
                         sections.append(("ret", a2, None))
-                    elif k2 in ("spec", "attr", "loop", "before", "after", "body_start", "body_end", "then_end", "else_end", "then_start", "else_start"):
+                    elif k2 == "span":
+                        sections.append(("span", a2, None))
+                    elif k2 in ("spec", "attr", "sig", "wrap", "loop", "before", "after", "body_start", "body_end", "then_end", "else_end", "then_start", "else_start"):
                         cur = (k2, a2, [])
                     else:
                         raise SpliceError("unknown directive: " + l2)
